@@ -245,7 +245,28 @@ class Translator:
         return c
 
     def lambda_cname_by_type(self, q):
+        q = re.sub(r'\)\s*(const)?\s*&*\s*$', ')', q.strip())
+        if q.startswith('const '): q = q[6:]
         if q in self.lambda_by_type: return self.lambda_by_type[q]
+        # a lambda that has not been translated yet (e.g. named as a template argument): position-independent name =
+        # its ordinal among the lambdas of its file (line numbers would change with every edit above it)
+        if not hasattr(self, '_lam_ord'):
+            allq = set()
+            def walk(n):
+                if isinstance(n, dict):
+                    if n.get('kind') == 'LambdaExpr':
+                        allq.add(strip_ns(n.get('type', {}).get('qualType', '')))
+                    for c in n.get('inner', []): walk(c)
+            for d in self.docs: walk(d)
+            def pos(t):
+                m = re.search(r'([^/ ]+):(\d+):(\d+)\)$', t)
+                return (m.group(1), int(m.group(2)), int(m.group(3))) if m else (t, 0, 0)
+            self._lam_ord = {}
+            byfile = {}
+            for t in sorted(allq, key=pos): byfile.setdefault(pos(t)[0], []).append(t)
+            for f, ts in byfile.items():
+                for k, t in enumerate(ts): self._lam_ord[t] = 'UserFn_' + re.sub(r'[^A-Za-z0-9]+', '_', f).strip('_') + '_%d' % k
+        if q in self._lam_ord: return self._lam_ord[q]
         key = re.sub(r'[^A-Za-z0-9]+', '_', q.split('/')[-1]).strip('_')
         return 'UserFn_' + key
 
@@ -793,6 +814,10 @@ class Translator:
             if name == 'end' and not args: return f'WMAP_END({optr()})'
             if name == 'begin' and not args: return f'WMAP_BEGIN({optr()})'
             if name == 'empty' and not args: return f'WMAP_EMPTY({optr()})'
+            if name == 'erase' and len(args) == 1:
+                at = self.ctype(self.qt(self.skip(args[0])))
+                if at.cls == 'mapit': return f'WMAP_ERASE_IT({optr()}, {self.E(args[0], cx)})'
+                return f'WMAP_ERASE_KEY({optr()}, {self.E(args[0], cx)})'
         if cls == 'condvar':
             if name == 'notify_one': return f'CONDVAR_NOTIFY_ONE({optr()})'
             if name == 'notify_all': return f'CONDVAR_NOTIFY_ALL({optr()})'
@@ -1029,7 +1054,7 @@ class Translator:
                 return self.call_function(d, None, args, cx)
         if nm in self.cfg.get('env_calls', {}):
             # environment (policy) function that is outside the dump: opaque stub, arguments by address
-            cn = self.cfg['env_calls'][nm]
+            cn = self.cfg['env_calls'][nm] + (str(len(args)) if len(args) != 1 else '')
             a = []; ps = []
             for i, x in enumerate(args):
                 sx = self.skip(x); tx = self.ctype(self.qt(sx))
